@@ -277,7 +277,6 @@ func (fr *frame) run() {
 	}
 }
 
-
 func (w *Worker) zeroResults(fn *ssa.Function) Value {
 	res := fn.Signature.Results()
 	switch res.Len() {
@@ -450,8 +449,14 @@ func (fr *frame) visit(instr ssa.Instruction) continuation {
 		}
 		succ := 1
 		if !ct.IsConst() {
+			if w.tryMergeLoop(fr, instr, ct) {
+				return kJump
+			}
 			if w.tryMerge(fr, instr, ct) {
 				return kJump
+			}
+			if w.inMerge > 0 {
+				panic(mergeFail{"symbolic branch inside a merged loop"})
 			}
 			if fr.symIter == nil {
 				fr.symIter = map[*ssa.BasicBlock]int{}
